@@ -323,3 +323,86 @@ func errCall(x ssa.Value) (*ssa.Call, bool) {
 	}
 	return nil, false
 }
+
+func init() {
+	for _, pid := range []string{"C01", "C02"} {
+		pid := pid
+		Properties[pid].Rules = append(Properties[pid].Rules, Rule{pid + "/one-early-success", func(c *Ctx) { ruleOneEarlySuccess(c, pid+"/one-early-success") }})
+	}
+}
+
+// retNilError: the return gives a nil error (directly, or through a named result assigned nil in the same block).
+func retNilError(ret *ssa.Return) bool {
+	if len(ret.Results) == 0 {
+		return false
+	}
+	ev := ret.Results[len(ret.Results)-1]
+	if !isErrorType(ev.Type()) {
+		return false
+	}
+	if k, ok := ev.(*ssa.Const); ok {
+		return k.IsNil()
+	}
+	ld, ok := ev.(*ssa.UnOp)
+	if !ok || ld.Op != token.MUL {
+		return false
+	}
+	var last ssa.Value
+	for _, i := range ret.Block().Instrs {
+		if st, ok := i.(*ssa.Store); ok && st.Addr == ld.X {
+			last = st.Val
+		}
+	}
+	k, ok := last.(*ssa.Const)
+	return ok && k.IsNil()
+}
+
+// The evaluator reports success in one place, after every keyword has had its turn. The only earlier success exit
+// is the one draft-07 prescribes: a schema with $ref ignores its other keywords.
+func ruleOneEarlySuccess(c *Ctx, rule string) {
+	e := c.Evaluator(rule)
+	if e == nil {
+		return
+	}
+	n, early := 0, 0
+	var recSites []*ssa.Call
+	core.EachInstr(e, func(i ssa.Instruction) {
+		if call, ok := i.(*ssa.Call); ok && call.Call.StaticCallee() == e {
+			recSites = append(recSites, call)
+		}
+	})
+	core.EachInstr(e, func(i ssa.Instruction) {
+		ret, ok := i.(*ssa.Return)
+		if !ok || ret.Block() == e.Recover || !retNilError(ret) {
+			return
+		}
+		n++
+		gs := guardsLocal(ret)
+		// the final exit comes after every keyword: each recursive evaluation can still reach it
+		isEarly := false
+		for _, site := range recSites {
+			if site.Block() != ret.Block() && !core.Reachable(site.Block(), ret.Block(), nil) {
+				isEarly = true
+			}
+		}
+		if !isEarly {
+			return
+		}
+		early++
+		d7, isD7 := c.draftConst("draft7")
+		okv := false
+		for _, g := range gs {
+			if isD7 && c.guardIsDraft(g, d7) {
+				okv = true
+			}
+		}
+		ref := false
+		for _, g := range gs {
+			if c.condMentions(g.Cond, "Schema.Ref") {
+				ref = true
+			}
+		}
+		c.R.Check(okv && ref, rule, fmt.Sprintf("%s:early-success#%d", core.FuncName(e), early), c.pos(ret), "the early success exit is the draft-07 rule for a schema with $ref", "the evaluator can report success before the end of its keyword list on a path that is not the draft-07 rule for $ref (`return nil` where `break` or nothing was meant): every keyword after this point is skipped for such an instance, so uniqueItems, contains, minItems, the object keywords ... no longer reject it")
+	})
+	c.R.Floor(rule, "success exits of the evaluator", n, 1)
+}
